@@ -200,7 +200,7 @@ fn check_concat(ctx: &mut Ctx, descs: &[Desc], items: Option<&[(Box<dyn Ser>, Ve
 }
 
 fn small_scope(ctx: &mut Ctx) {
-    let n = ctx.tier.pick(10, 18);
+    let n = ctx.tier.pick(12, 18);
     for len in 0..=n {
         for word in 0..(1u64 << len) {
             let bits = BitsDesc::Word { len, word };
